@@ -1201,14 +1201,24 @@ def roundtrip_check(tier, seed):
     counts = {"smtlib": 0, "hr": 0, "script": 0}
     g = SmtGen(env, seed=seed, widths=(1, 2, 3, 8))
     parser = SmtLibParser(env)
-    for t in range(trials):
-        if t % 25 == 0:
+    # indexed operators at the ends of their index ranges (rotation by 0 and by the full width, extension by 0, extraction of
+    # the whole word / one bit): deterministic, ahead of the generated formulas
+    m = env.formula_manager
+    edge = []
+    for w in (1, 2, 3, 8):
+        x = m.Symbol("edge_x%d" % w, BVType(w))
+        for tm in (m.BVRol(x, 0), m.BVRol(x, w), m.BVRor(x, 0), m.BVRor(x, w), m.BVZExt(x, 0), m.BVSExt(x, 0), m.BVZExt(x, w),
+                   m.BVSExt(x, w), m.BVExtract(x, 0, w - 1), m.BVExtract(x, w - 1, w - 1), m.BVExtract(x, 0, 0),
+                   m.BVRol(m.BVRor(x, w), w - 1)):
+            edge.append(m.Equals(tm, m.Symbol("edge_y%d" % tm.bv_width(), BVType(tm.bv_width()))))
+    for t in range(-len(edge), trials):
+        if t >= 0 and t % 25 == 0:
             g.syms.clear()
             g.pool_shared = []
             if (t // 25) % 2 == 1:
                 g.syms[BOOL] = [env.formula_manager.Symbol(".def_%d" % i, BOOL) for i in range(3)]
         try:
-            f = g.term(BOOL, rng.randint(1, 4))
+            f = edge[t + len(edge)] if t < 0 else g.term(BOOL, rng.randint(1, 4))
         except Exception:
             continue
         n += 1
@@ -1261,7 +1271,7 @@ def roundtrip_check(tier, seed):
                     viol.append({"key": "hr-roundtrip-different-text", "formula": s, "back": r.serialize()})
                     break
         # --- scripts: parse, serialise, parse again -> equivalent command lists ----------------------------------
-        if t % 3 == 0:
+        if t >= 0 and t % 3 == 0:
             sg = ScriptGen(random.Random(rng.random()), rng.choice(["ALL", "QF_LIA", "QF_LRA", "QF_BV", "QF_UFLIA", None]),
                            suffix="_r%d" % t)
             text = sg.script()
@@ -1296,7 +1306,7 @@ def roundtrip_check(tier, seed):
         if len(samples) < 3 and f.args():
             samples.append(f.serialize()[:200])
     return {"name": "roundtrip", "bounded": True, "evaluations": n, "distinct_nontrivial": nontriv,
-            "rule": "%d generated formulas: SMT-LIB print (tree and DAG) then parse in the same environment must return the same "
+            "rule": "48 indexed-operator applications at the ends of their index ranges (rotate by 0 / by the width, extend by 0 / by the width, extract the whole word / one bit; widths 1 2 3 8) and %d generated formulas: SMT-LIB print (tree and DAG) then parse in the same environment must return the same "
                     "object (constant arrays: an equivalent store chain) [%d trips]; human-readable serialise then parse must keep "
                     "type, meaning and text up to parentheses (strings containing a double quote and symbol names containing a single quote or backslash "
                     "excluded: outside the HR parser's fragment) [%d trips]; grammar-generated scripts parsed, serialised and parsed again must give "
